@@ -72,6 +72,13 @@ def catalogue(tier):
     sc.append(dict(cid="assets_and_actions", props=["C09", "C10"], setup=[J(1, 0, 1), J(2, 1, 2), ent(1, 3), ent(2, 4)],
                    block=[B(1, k="AssetAdd", rid=5, eid=1, asset="m", ts=5), B(2, k="AssetAdd", rid=6, eid=2, asset="n", ts=6),
                           B(1, k="Action", rid=7, eid=1, name="x", ats=1, data=1, ts=7)][:2] + [B(3, k="Join", rid=8, sid=1, ts=8)], after=PROBE))
+    # --- a reader of an entity (the snapshot a joiner is handed, the relay of an entity add) against a writer of the same entity
+    # (a pose update): every lock on the way is a gate, incl. the entity's own mutex (seeded m12-C09: the read lock taken
+    # twice by the snapshot - with Go's writer preference the pose update between the two acquisitions blocks both)
+    sc.append(dict(cid="pose_vs_join_snapshot", props=["C09"], setup=[J(1, 0, 1), ent(1, 2), ent(1, 3, True), J(2, 1, 4)],
+                   block=[B(1, k="Pose", eid=1, px=4, ts=5), BJ(3, 1, 6)], after=PROBE))
+    sc.append(dict(cid="poses_vs_join_and_entity_add", props=["C09"], setup=[J(1, 0, 1), ent(1, 2), J(2, 1, 3), ent(2, 4)],
+                   block=[B(1, k="Pose", eid=1, px=4, ts=5), B(2, k="Pose", eid=2, px=5, ts=6), BJ(3, 1, 7)], after=PROBE))
     for s in sc:
         s.update(config=dict(mods=ALL, flags=[]), p=P, max=mx)
     return sc
